@@ -81,20 +81,64 @@ enum CallOut {
     Xml(Option<String>),
 }
 
+/// Concrete element names for the abstract tree (ObjTree!Namings): the model is about the shape of the tree
+/// only, so every history must behave alike whatever the elements of /a, /a/b and /c are called.
+#[derive(Clone)]
+pub struct Naming {
+    conc: [String; 4],
+}
+
+impl Naming {
+    pub fn new(a: &str, b: &str, c: &str) -> Naming {
+        Naming { conc: ["/".to_string(), format!("/{a}"), format!("/{a}/{b}"), format!("/{c}")] }
+    }
+    pub fn identity() -> Naming {
+        Naming::new("a", "b", "c")
+    }
+    pub fn table() -> Vec<[&'static str; 3]> {
+        vec![["a", "b", "c"], ["a", "a", "aa"], ["dev10", "1", "dev"], ["ab", "a", "b"], ["a_b", "b", "a"], ["b", "c", "a"]]
+    }
+    /// abstract -> concrete
+    fn c(&self, p: &str) -> String {
+        PATHS.iter().position(|x| *x == p).map(|i| self.conc[i].clone()).unwrap_or_else(|| p.to_string())
+    }
+    /// concrete -> abstract (unknown paths are kept, marked, so that the validator sees them)
+    fn a(&self, p: &str) -> String {
+        self.conc.iter().position(|x| x == p).map(|i| PATHS[i].to_string()).unwrap_or_else(|| format!("?{p}"))
+    }
+    /// child element `k` of abstract node `p` -> the abstract element name
+    fn kid(&self, p: &str, k: &str) -> String {
+        let cp = self.c(p);
+        let full = if cp == "/" { format!("/{k}") } else { format!("{cp}/{k}") };
+        match self.conc.iter().position(|x| *x == full) {
+            Some(i) => PATHS[i].rsplit('/').next().unwrap().to_string(),
+            None => format!("?{k}"),
+        }
+    }
+    fn json(&self) -> J {
+        json!(self.conc)
+    }
+}
+
 pub struct World {
     pub pair: Pair,
     stream: MessageStream,
+    names: Naming,
 }
 
 impl World {
     pub fn new() -> World {
+        World::named(Naming::identity())
+    }
+
+    pub fn named(names: Naming) -> World {
         let mut pair = Pair::new();
         let stream = MessageStream::from(&pair.client);
         // let the lazily created object-server task subscribe before any call is sent (C30 covers the
         // case where it has not)
         let _ = pair.server.object_server();
         pair.settle(&mut []);
-        World { pair, stream }
+        World { pair, stream, names }
     }
 
     /// ObjectManager signals received by the client since the last call, in order.
@@ -109,7 +153,7 @@ impl World {
             if hdr.interface().map(|i| i.as_str()) != Some(N_OM) {
                 continue;
             }
-            let m = hdr.path().map(|p| p.to_string()).unwrap_or_default();
+            let m = hdr.path().map(|p| self.names.a(p.as_str())).unwrap_or_default();
             match hdr.member().map(|m| m.to_string()).as_deref() {
                 Some("InterfacesAdded") => {
                     if let Ok((p, ifs)) =
@@ -120,7 +164,7 @@ impl World {
                             .filter_map(|(n, props)| short(n).map(|s| (s.to_string(), val_of(props))))
                             .collect();
                         l.sort();
-                        out.push(json!({"m": m, "k": "IA", "p": p.to_string(),
+                        out.push(json!({"m": m, "k": "IA", "p": self.names.a(p.as_str()),
                             "ifs": l.iter().map(|(i, v)| json!([i, v])).collect::<Vec<_>>()}));
                     }
                 }
@@ -128,7 +172,7 @@ impl World {
                     if let Ok((p, ifs)) = msg.body().deserialize::<(OwnedObjectPath, Vec<String>)>() {
                         let mut l: Vec<String> = ifs.iter().filter_map(|n| short(n).map(|s| s.to_string())).collect();
                         l.sort();
-                        out.push(json!({"m": m, "k": "IR", "p": p.to_string(),
+                        out.push(json!({"m": m, "k": "IR", "p": self.names.a(p.as_str()),
                             "ifs": l.iter().map(|i| json!([i, 0])).collect::<Vec<_>>()}));
                     }
                 }
@@ -141,7 +185,7 @@ impl World {
     /// Perform one operation through the public API; returns the abstract result.
     pub fn apply(&mut self, op: &str, p: &str, i: &str, v: u32) -> &'static str {
         let s = self.pair.server.clone();
-        let path = p.to_string();
+        let path = self.names.c(p);
         let which = i.to_string();
         let is_at = op == "at";
         let r = self.pair.drive(async move {
@@ -182,19 +226,21 @@ impl World {
     pub fn project(&mut self) -> J {
         // 1. server-side lookup
         let s = self.pair.server.clone();
+        let names = self.names.clone();
         let look = self
             .pair
             .drive(async move {
                 let os = s.object_server();
                 let mut out = vec![];
                 for p in PATHS {
-                    if let Ok(r) = os.interface::<_, I1>(p).await {
+                    let cp = names.c(p);
+                    if let Ok(r) = os.interface::<_, I1>(cp.as_str()).await {
                         out.push(json!([p, "I1", r.get().await.val]));
                     }
-                    if let Ok(r) = os.interface::<_, I2>(p).await {
+                    if let Ok(r) = os.interface::<_, I2>(cp.as_str()).await {
                         out.push(json!([p, "I2", r.get().await.val]));
                     }
-                    if os.interface::<_, ObjectManager>(p).await.is_ok() {
+                    if os.interface::<_, ObjectManager>(cp.as_str()).await.is_ok() {
                         out.push(json!([p, "OM", 1]));
                     }
                 }
@@ -206,7 +252,7 @@ impl World {
         for (pi, p) in PATHS.iter().enumerate() {
             for (ii, i) in IFACES.iter().enumerate() {
                 let c = self.pair.client.clone();
-                let p = p.to_string();
+                let p = self.names.c(p);
                 let om = *i == "OM";
                 let name = long(i);
                 jobs.push((pi, ii, Job::new(async move {
@@ -220,7 +266,7 @@ impl World {
                 })));
             }
             let c = self.pair.client.clone();
-            let p = p.to_string();
+            let p = self.names.c(p);
             jobs.push((pi, 9, Job::new(async move {
                 let r = c
                     .call_method(None::<()>, p.as_str(), Some("org.freedesktop.DBus.Introspectable"), "Introspect", &())
@@ -251,7 +297,7 @@ impl World {
                         for (n, props) in ifs.iter() {
                             // unknown interface names are kept verbatim so that the validator sees them
                             let i = short(n).map(|s| s.to_string()).unwrap_or_else(|| n.clone());
-                            l.push((op.to_string(), i, val_of(props)));
+                            l.push((self.names.a(op.as_str()), i, val_of(props)));
                         }
                     }
                     l.sort();
@@ -268,7 +314,7 @@ impl World {
                         let mut ks: Vec<String> = n.nodes().iter().filter_map(|c| c.name().map(|s| s.to_string())).collect();
                         ks.sort();
                         for k in ks {
-                            kids.push(json!([p, k]));
+                            kids.push(json!([p, self.names.kid(p, &k)]));
                         }
                     }
                     Err(_) => intro.push(json!([p, "UNPARSABLE"])),
@@ -297,13 +343,14 @@ impl World {
     }
 }
 
-fn run_scenario(id: u64, ops: &[(String, String, String, u32)]) -> J {
-    let mut w = World::new();
+fn run_scenario(id: u64, ops: &[(String, String, String, u32)], names: Naming) -> J {
+    let nj = names.json();
+    let mut w = World::named(names);
     let mut steps = vec![];
     for (op, p, i, v) in ops {
         steps.push(w.step(op, p, i, *v));
     }
-    json!({"id": id, "steps": steps})
+    json!({"id": id, "names": nj, "steps": steps})
 }
 
 /// replay TLC-generated histories
@@ -325,7 +372,12 @@ pub fn replay(cases: &str, out: &str) {
                  o["i"].as_str().unwrap().to_string(), o["v"].as_u64().unwrap() as u32)
             })
             .collect();
-        let r = run_scenario(c["id"].as_u64().unwrap_or(0), &ops);
+        // element names chosen by the generator (Gen_ObjTree: names = <<a, b, c>>); identity when absent
+        let names = match c.get("names").and_then(|n| n.as_array()) {
+            Some(n) if n.len() == 3 => Naming::new(n[0].as_str().unwrap(), n[1].as_str().unwrap(), n[2].as_str().unwrap()),
+            _ => Naming::identity(),
+        };
+        let r = run_scenario(c["id"].as_u64().unwrap_or(0), &ops, names);
         writeln!(o, "{}", r).unwrap();
     }
 }
@@ -345,7 +397,9 @@ pub fn random(n: u64, len: u64, seed: u64, out: &str) {
             let op = if rng.below(100) < at_bias { "at" } else { "remove" };
             ops.push((op.to_string(), p.to_string(), i.to_string(), if op == "at" { (s + 1) as u32 } else { 0 }));
         }
-        let r = run_scenario(1_000_000 + k, &ops);
+        let t = Naming::table();
+        let n = t[rng.below(t.len() as u64) as usize];
+        let r = run_scenario(1_000_000 + k, &ops, Naming::new(n[0], n[1], n[2]));
         writeln!(o, "{}", r).unwrap();
     }
 }
